@@ -10,9 +10,10 @@ in an unknown form - is `Undecidable` (exit 2).  Locals are never identified by 
 container filled with distance(begin_seqs[k].first, begin_seqs[k].second), the border arrays are the ones the edge scans
 read, the skew is the local defined from the rank parameter whose sign tests dominate the queues, begin_seqs and rank
 are the first and third parameter of the public signature."""
+import copy
 import itertools
 
-from engine import ir, dtable, match, mustfact, linear, cfg as cfgm
+from engine import ir, dtable, match, mustfact, linear, normalize, cfgbuild, cfg as cfgm
 from engine.ir import kids, strip_casts, const_int, ref_of
 
 PART = "tlx::multisequence_partition"
@@ -168,11 +169,492 @@ def check_lexi(ck, tu):
             ck.guarded(lambda fn=fn, cls=cls, rev=rev: lexi_one(ck, fn, cls, rev))
 
 
+# ------------------------------------------------------------------------------------------------ local lambdas
+class _LambdaInliner(normalize.Rewriter):
+    """Calls of lambdas that are declared as locals of the function and only ever called are replaced by their bodies
+    (engine/normalize.py does this for new named helpers, not for lambdas): a by-reference capture names the caller's variable
+    itself, so the body can be placed at the call as it is; parameters are bound like those of a helper.  A call that cannot be
+    replaced exactly is left in place (the rules then see an unknown helper and give up on their own)."""
+
+    def __init__(self, tu, fn, body, lambdas):
+        super().__init__(tu, fn)
+        self.body = body
+        self.lambdas = lambdas          # declaration id of the closure variable -> Fn of its operator()
+        self.fn_writes = set()
+        for y in ir.walk(body):
+            self.fn_writes |= self._targets(y)
+        self._info = {}
+
+    @staticmethod
+    def _targets(y):
+        tgt = None
+        if y["k"] in ("BinaryOperator", "CompoundAssignOperator") and (y.get("op") or "").endswith("=") and y.get("op") not in ("==", "!=", "<=", ">="):
+            tgt = kids(y)[0]
+        elif y["k"] == "UnaryOperator" and y.get("op") in ("++", "--"):
+            tgt = kids(y)[0]
+        elif y["k"] == "CXXOperatorCallExpr" and y.get("op") in ("=", "+=", "-=", "*=", "/=", "++", "--") and kids(y):
+            tgt = kids(y)[0]
+        if tgt is None:
+            return set()
+        root = normalize.lvalue_root(tgt)
+        return {root if root is not None else "?"}
+
+    def info(self, cal):
+        """(declaration ids written in the body, body is free of effects, usable) of a lambda"""
+        if cal.did not in self._info:
+            written, pure, usable = set(), True, True
+            for y in ir.walk(cal.body):
+                t = self._targets(y)
+                written |= t
+                if t or y["k"] in ("CXXNewExpr", "CXXDeleteExpr", "CXXThrowExpr", "LambdaExpr"):
+                    pure = False
+                if "callee" in y and not (y["k"] == "CXXOperatorCallExpr" and y.get("op") in ("[]", "*", "->", "()", "+", "-", "<", ">", "<=", ">=", "==", "!=")) \
+                        and y["k"] not in ("CXXConstructExpr", "CXXTemporaryObjectExpr") and y["callee"]["name"] not in normalize.PURE_CALLS:
+                    pure = False
+                if y["k"] == "DeclRefExpr" and y["ref"]["id"] in self.lambdas:
+                    usable = False      # a lambda that calls a lambda
+                if y["k"] in ("CXXTryStmt", "GotoStmt", "LabelStmt", "CXXForRangeStmt", "SwitchStmt"):
+                    usable = False
+            self._info[cal.did] = (written, pure, usable)
+        return self._info[cal.did]
+
+    def lambda_call(self, n):
+        if n is not None and n["k"] == "CXXOperatorCallExpr" and n.get("op") == "()" and kids(n):
+            cal = self.lambdas.get(ref_of(kids(n)[0]))
+            if cal is not None and cal.did == n["callee"].get("did") and self.info(cal)[2]:
+                return cal
+        return None
+
+    def bind_lambda(self, cal, call):
+        args = kids(call)[1:]
+        pro, subst, rename = self.bind(cal, {"k": "CallExpr", "ch": args, "l": call.get("l")})
+        written = self.info(cal)[0]
+        for p, a in zip(cal.params, args):
+            if p["did"] not in subst:
+                continue
+            ops = {y["ref"]["id"] for y in ir.walk(a) if y["k"] == "DeclRefExpr"}
+            reads_mem = any(match.index_parts(y) or match.deref_of(y) is not None or y["k"] == "MemberExpr" for y in ir.walk(a))
+            if (ops & written) or ("?" in written) or (reads_mem and written and not (p.get("ty") or "").rstrip().endswith("&") and
+                                                         not strip_casts(a)["k"] == "UnaryOperator"):
+                # the body changes what the argument is computed from: a value parameter keeps the value of the call
+                if (p.get("ty") or "").rstrip().endswith("&"):
+                    raise normalize.Fail("reference argument whose address changes inside the lambda")
+                del subst[p["did"]]
+                nd = self.next_did
+                self.next_did -= 1
+                rename[p["did"]] = nd
+                v = {"k": "VarDecl", "id": self.fresh(), "did": nd, "name": p.get("name") or "arg", "ty": p.get("ty"), "l": call.get("l"), "ch": [self.clone(a)]}
+                pro.append({"k": "DeclStmt", "id": self.fresh(), "l": call.get("l"), "ch": [v]})
+        return pro, subst, rename
+
+    def value_of(self, call, cal):
+        """the expression a call of an effect-free lambda stands for, or None"""
+        written, pure, usable = self.info(cal)
+        args = kids(call)[1:]
+        if not pure or len(args) != len(cal.params) or any(a is None or a["k"] == "DefaultArg" or not self.side_effect_free(a) for a in args):
+            return None
+        e = dtable.stmts_as_expr([s_ for s_ in kids(cal.body) if s_ is not None], {p_["did"]: a_ for p_, a_ in zip(cal.params, args)})
+        return self.simplify(self.clone(e)) if e is not None else None
+
+    def expand_stmt(self, s):
+        if s is None:
+            return [s]
+        top = s
+        while top is not None and top["k"] in ("ExprWithCleanups",) and kids(top):
+            top = kids(top)[0]
+        cal = self.lambda_call(top)
+        if cal is not None:
+            try:
+                pro, subst, rename = self.bind_lambda(cal, top)
+                body = [self.simplify(self.clone(x, subst, rename)) for x in kids(cal.body)]
+                body = self.deret(body, lambda e: ([e] if e is not None and not self.side_effect_free(e) else []))
+                self.changed = True
+                return [self.block(pro + body, s)]
+            except normalize.Fail:
+                return [s]
+        slot = None
+        if s["k"] == "DeclStmt" and len(kids(s)) == 1 and kids(s)[0]["k"] == "VarDecl" and kids(kids(s)[0]):
+            slot, call = ("decl", kids(s)[0]), kids(kids(s)[0])[0]
+        elif s["k"] == "ReturnStmt" and kids(s):
+            slot, call = ("ret", s), kids(s)[0]
+        elif top is not None and top["k"] == "BinaryOperator" and top.get("op") == "=":
+            slot, call = ("asg", top), kids(top)[1]
+        if slot is not None:
+            c0 = call
+            while c0 is not None and c0["k"] in ("ImplicitCastExpr", "ExprWithCleanups", "MaterializeTemporaryExpr", "CXXBindTemporaryExpr", "ParenExpr") and kids(c0):
+                c0 = kids(c0)[0]
+            cal = self.lambda_call(c0)
+            if cal is not None and self.value_of(c0, cal) is None:
+                try:
+                    pro, subst, rename = self.bind_lambda(cal, c0)
+                    body = [self.simplify(self.clone(x, subst, rename)) for x in kids(cal.body)]
+                    if not body or body[-1]["k"] != "ReturnStmt" or any(self.has_return(x) for x in body[:-1]) or not kids(body[-1]):
+                        raise normalize.Fail("not a single trailing return")
+                    if slot[0] == "asg" and normalize.lvalue_root(kids(slot[1])[0]) in (self.info(cal)[0] | {None}):
+                        raise normalize.Fail("the assigned variable is written inside the lambda")
+                    new = self._with_value(s, slot, c0, kids(body[-1])[0])
+                    self.changed = True
+                    return pro + body[:-1] + [new]
+                except normalize.Fail:
+                    pass
+        self.inline_values(s)
+        if s["k"] == "CompoundStmt":
+            s["ch"] = self.expand_list(kids(s))
+        elif s["k"] in ("IfStmt", "ForStmt", "WhileStmt", "DoStmt", "AttributedStmt"):
+            new_ch = []
+            for c in kids(s):
+                if c is not None and (c["k"] in ("CompoundStmt", "IfStmt", "ForStmt", "WhileStmt", "DoStmt", "AttributedStmt", "ReturnStmt") or self._is_stmt_position(s, c)):
+                    ex = self.expand_stmt(c)
+                    new_ch.append(ex[0] if len(ex) == 1 else self.block(ex, c))
+                else:
+                    new_ch.append(c)
+            s["ch"] = new_ch
+        return [s]
+
+    def inline_values(self, s):
+        """calls of effect-free lambdas inside the expressions that belong to statement s itself"""
+        def rec(n):
+            if n is None or n["k"] == "LambdaExpr":
+                return n
+            if n["k"] in ("CompoundStmt", "IfStmt", "ForStmt", "WhileStmt", "DoStmt", "SwitchStmt") and n is not s:
+                return n
+            if "ch" in n:
+                n["ch"] = [rec(c) for c in n["ch"]]
+            cal = self.lambda_call(n)
+            if cal is not None:
+                e = self.value_of(n, cal)
+                if e is not None:
+                    self.changed = True
+                    return e
+            return n
+        if s["k"] == "CompoundStmt":
+            return
+        if s["k"] in ("IfStmt", "WhileStmt", "SwitchStmt"):
+            s["ch"][0] = rec(s["ch"][0])
+        elif s["k"] == "ForStmt":
+            for i in (1, 2):
+                if kids(s)[i] is not None:
+                    s["ch"][i] = rec(s["ch"][i])
+            if kids(s)[0] is not None and kids(s)[0]["k"] != "DeclStmt":
+                s["ch"][0] = rec(s["ch"][0])
+            elif kids(s)[0] is not None:
+                rec(kids(s)[0])
+        elif s["k"] == "DoStmt":
+            s["ch"][1] = rec(s["ch"][1])
+        else:
+            rec(s)
+
+
+def inline_local_lambdas(fn):
+    """-> a copy of fn in which the calls of its own local lambdas are replaced by their bodies (fn itself if it has none,
+    or if the rewritten body gets no control-flow graph)"""
+    if fn.body is None:
+        return fn
+    lambdas = {}
+    for v in fn.nodes():
+        if v["k"] != "VarDecl" or v.get("did") is None or not kids(v) or kids(v)[0] is None:
+            continue
+        e = kids(v)[0]
+        while e is not None and e["k"] in _CASTS + ("CXXConstructExpr",) and len(kids(e)) == 1:
+            e = kids(e)[0]
+        cal = fn.tu.by_did.get(e.get("fn")) if e is not None and e["k"] == "LambdaExpr" else None
+        if cal is None or cal.kind != "lambda" or cal.body is None:
+            continue
+        # by-copy captures are snapshots taken where the lambda is created: only of variables that never change
+        lambdas[v["did"]] = (cal, e)
+    if not lambdas:
+        return fn
+    body = copy.deepcopy(fn.body)
+    parent = {}
+    for n_, p_ in ir.walk_with_parent(body):
+        parent[n_["id"]] = p_
+    writes = set()
+    for y in ir.walk(body):
+        writes |= _LambdaInliner._targets(y)
+    usable = {}
+    for d, (cal, lam) in lambdas.items():
+        ok = True
+        for y in ir.walk(body):
+            if y["k"] == "DeclRefExpr" and y["ref"]["id"] == d:
+                p_ = parent.get(y["id"])
+                while p_ is not None and p_["k"] in _CASTS:
+                    y, p_ = p_, parent.get(p_["id"])
+                if not (p_ is not None and p_["k"] == "CXXOperatorCallExpr" and p_.get("op") == "()" and kids(p_)[0] is y):
+                    ok = False          # the closure is handed on: it may be called from anywhere
+        for c_ in lam.get("captures", []):
+            if not c_.get("byref") and (c_.get("id") is None or c_["id"] in writes or "?" in writes):
+                ok = False
+        if ok:
+            usable[d] = cal
+    if not usable:
+        return fn
+    rw = _LambdaInliner(fn.tu, fn, body, usable)
+    try:
+        for _ in range(3):
+            rw.changed = False
+            body["ch"] = rw.expand_list(kids(body))
+            if not rw.changed:
+                break
+        used = {y["ref"]["id"] for y in ir.walk(body) if y["k"] == "DeclRefExpr"}
+
+        def prune(n):
+            if n is None or "ch" not in n:
+                return n
+            ch = []
+            for c in n["ch"]:
+                if c is not None and c["k"] == "DeclStmt" and n["k"] == "CompoundStmt":
+                    keep = [v for v in kids(c) if not (v["k"] == "VarDecl" and v.get("did") in usable and v["did"] not in used)]
+                    if not keep:
+                        continue
+                    if len(keep) != len(kids(c)):
+                        c = dict(c)
+                        c["ch"] = keep
+                ch.append(prune(c))
+            n["ch"] = ch
+            return n
+        prune(body)
+        if body == fn.body:
+            return fn
+        g = cfgbuild.build(body)
+    except (cfgbuild.Unsupported, normalize.Fail, KeyError, IndexError, TypeError):
+        return fn
+    d2 = dict(fn.d)
+    d2["body"], d2["cfg"] = body, g
+    fn2 = ir.Fn(d2, fn.tu)
+    fn2.lambdas_inlined = True
+    return fn2
+
+
+# ------------------------------------------------------------------------------------------------ local aggregates
+_WRAP = _CASTS + ("CXXConstructExpr",)
+
+
+def scalarize_structs(fn):
+    """-> a copy of fn in which a local of a plain aggregate type (a struct without bases and methods) that is only ever used
+    field by field, assigned as a whole from a braced list / another such local, or copied into one, is replaced by one local
+    per field (`lmax.elem`, `lmax.seq`); `v = { e1, e2 }` becomes `(v.f1 = e1, v.f2 = e2)`, `{ e1, e2 }.f1` becomes e1.  The
+    rules then read a winner kept as a struct like a winner kept in two variables.  fn itself if there is nothing to do or a use
+    is of another kind."""
+    if fn.body is None:
+        return fn
+    by_mid = {}
+    for r in fn.tu.records:
+        if r.get("bases") or r.get("methods") or not r.get("fields"):
+            continue
+        for i, f in enumerate(r["fields"]):
+            by_mid[f["mid"]] = (r, i)
+    if not by_mid or not any(y["k"] == "MemberExpr" and y.get("mid") in by_mid for y in fn.nodes()):
+        return fn
+    body = copy.deepcopy(fn.body)
+    rw = normalize.Rewriter(fn.tu, fn)
+
+    def unwrap(e):
+        while e is not None and e["k"] in _WRAP and len(kids(e)) == 1:
+            e = kids(e)[0]
+        return e
+
+    def pure(e):
+        return rw.side_effect_free(e)
+    try:
+        # { e1, .., ek }.f  ->  e_f
+        def sel(n):
+            if n is None:
+                return None
+            for key in ("init", "condvar"):
+                if key in n and isinstance(n[key], dict):
+                    n[key] = sel(n[key])
+            if "ch" in n:
+                n["ch"] = [sel(c) for c in n["ch"]]
+            if n["k"] == "MemberExpr" and n.get("mid") in by_mid and kids(n):
+                b = unwrap(kids(n)[0])
+                r, i = by_mid[n["mid"]]
+                if b is not None and b["k"] == "InitListExpr" and len(kids(b)) == len(r["fields"]) and all(pure(e) for e in kids(b)):
+                    return kids(b)[i]
+            return n
+        body = sel(body)
+        parent = {}
+        for n_, p_ in ir.walk_with_parent(body):
+            parent[n_["id"]] = p_
+        decls = {v["did"]: v for v in ir.walk(body) if v["k"] == "VarDecl" and v.get("did") is not None}
+        refs = {}
+        for y in ir.walk(body):
+            if y["k"] == "DeclRefExpr" and y["ref"]["id"] in decls:
+                refs.setdefault(y["ref"]["id"], []).append(y)
+        # the record of a local: through its member accesses
+        rec = {}
+        for d, ys in refs.items():
+            rs = set()
+            for y in ys:
+                c, p_ = y, parent.get(y["id"])
+                while p_ is not None and p_["k"] in _CASTS and len(kids(p_)) == 1:
+                    c, p_ = p_, parent.get(p_["id"])
+                if p_ is not None and p_["k"] == "MemberExpr" and p_.get("mid") in by_mid:
+                    rs.add(id(by_mid[p_["mid"]][0]))
+                    rec[d] = by_mid[p_["mid"]][0]
+            if len(rs) != 1:
+                rec.pop(d, None)
+        cand = set(rec)
+        for y in ir.walk(body):
+            if y["k"] == "LambdaExpr":          # a closure that was not inlined may use the local as a whole
+                cand -= {c_.get("id") for c_ in y.get("captures", [])}
+
+        def whole_assign(n):
+            """(target did, rhs) if n is `v = rhs` through the implicit copy assignment of an aggregate"""
+            if n is not None and n["k"] == "CXXOperatorCallExpr" and n.get("op") == "=" and len(kids(n)) == 2 and ref_of(kids(n)[0]) in decls and \
+                    fn.tu.by_did.get(n["callee"].get("did")) is None:
+                return ref_of(kids(n)[0]), unwrap(kids(n)[1])
+            return None
+
+        def stmt_context(n):
+            """the value of expression n is not used"""
+            c, p_ = n, parent.get(n["id"])
+            while p_ is not None and p_["k"] in ("ExprWithCleanups", "ParenExpr"):
+                c, p_ = p_, parent.get(p_["id"])
+            if p_ is None:
+                return False
+            if p_["k"] == "CompoundStmt":
+                return True
+            if p_["k"] == "BinaryOperator" and p_.get("op") == ",":
+                return kids(p_)[0] is c or stmt_context(p_)
+            if p_["k"] == "IfStmt":
+                return kids(p_)[0] is not c
+            if p_["k"] == "ForStmt":
+                return kids(p_)[1] is not c
+            if p_["k"] == "WhileStmt":
+                return kids(p_)[1] is c
+            if p_["k"] == "DoStmt":
+                return kids(p_)[0] is c
+            return False
+
+        def value_ok(e, d):
+            """e can initialise / be assigned to the aggregate local d field by field"""
+            e = unwrap(e)
+            if e is None:
+                return False
+            if e["k"] == "InitListExpr":
+                return len(kids(e)) == len(rec[d]["fields"]) and all(x is not None and pure(x) for x in kids(e)) and \
+                    not any(y["k"] == "DeclRefExpr" and y["ref"]["id"] == d for y in ir.walk(e))
+            return e["k"] == "DeclRefExpr" and e["ref"]["id"] in cand and e["ref"]["id"] != d and rec.get(e["ref"]["id"]) is rec[d]
+        changed = True
+        while changed:
+            changed = False
+            for d in list(cand):
+                ok = True
+                v = decls[d]
+                pv = parent.get(v["id"])
+                if pv is None or pv["k"] != "DeclStmt" or (v.get("ty") or "").rstrip().endswith(("&", "*")):
+                    ok = False
+                init = kids(v)[0] if kids(v) else None
+                if ok and init is not None:
+                    i0 = unwrap(init)
+                    if not (value_ok(init, d) or (i0 is not None and i0["k"] == "CXXConstructExpr" and not kids(i0))):
+                        ok = False
+                for y in refs.get(d, []):
+                    if not ok:
+                        break
+                    c, p_ = y, parent.get(y["id"])
+                    while p_ is not None and p_["k"] in _WRAP and len(kids(p_)) == 1:
+                        c, p_ = p_, parent.get(p_["id"])
+                    if p_ is None:
+                        ok = False
+                    elif p_["k"] == "MemberExpr" and p_.get("mid") in by_mid and by_mid[p_["mid"]][0] is rec[d]:
+                        pass
+                    elif whole_assign(p_) and kids(p_)[0] is c:
+                        ok = whole_assign(p_)[0] == d and value_ok(kids(p_)[1], d) and stmt_context(p_)
+                    elif whole_assign(p_):
+                        ok = whole_assign(p_)[0] in cand and whole_assign(p_)[0] != d
+                    elif p_["k"] == "VarDecl" and p_.get("did") in cand and p_["did"] != d:
+                        pass
+                    else:
+                        ok = False
+                if not ok:
+                    cand.discard(d)
+                    changed = True
+        if not cand:
+            return fn if body == fn.body else _rebuilt(fn, body)
+        fdid = {}
+        nd = -100000 - len(decls)
+        for d in sorted(cand):
+            for f in rec[d]["fields"]:
+                nd -= 1
+                fdid[(d, f["name"])] = nd
+
+        def fref(d, f, like):
+            const = (decls[d].get("ty") or "").startswith("const ")
+            return {"k": "DeclRefExpr", "id": rw.fresh(), "l": like.get("l"), "lv": True, "ty": ("const " if const and "*" not in f["ty"] else "") + f["ty"],
+                    "ref": {"id": fdid[(d, f["name"])], "kind": "local", "name": "%s.%s" % (decls[d].get("name"), f["name"]), "vty": f["ty"]}}
+
+        def field_values(e, d, like):
+            e = unwrap(e)
+            if e["k"] == "InitListExpr":
+                return [rewrite(x) for x in kids(e)]
+            return [fref(e["ref"]["id"], f, like) for f in rec[d]["fields"]]
+
+        def rewrite(n):
+            if n is None:
+                return None
+            if n["k"] == "MemberExpr" and n.get("mid") in by_mid and kids(n):
+                b = kids(n)[0]
+                while b is not None and b["k"] in _CASTS and len(kids(b)) == 1:
+                    b = kids(b)[0]
+                if b is not None and b["k"] == "DeclRefExpr" and b["ref"]["id"] in cand:
+                    out = fref(b["ref"]["id"], by_mid[n["mid"]][0]["fields"][by_mid[n["mid"]][1]], n)
+                    out["ty"] = n.get("ty") or out["ty"]
+                    return out
+            wa = whole_assign(n)
+            if wa and wa[0] in cand:
+                d = wa[0]
+                vals = field_values(kids(n)[1], d, n)
+                out = None
+                for f, val in zip(rec[d]["fields"], vals):
+                    a = {"k": "BinaryOperator", "op": "=", "id": rw.fresh(), "l": n.get("l"), "lv": True, "ty": f["ty"], "ch": [fref(d, f, n), val]}
+                    out = a if out is None else {"k": "BinaryOperator", "op": ",", "id": rw.fresh(), "l": n.get("l"), "ty": f["ty"], "ch": [out, a]}
+                return out
+            if n["k"] == "DeclStmt":
+                ch = []
+                for v in kids(n):
+                    if v is not None and v["k"] == "VarDecl" and v.get("did") in cand:
+                        d = v["did"]
+                        init = kids(v)[0] if kids(v) else None
+                        i0 = unwrap(init) if init is not None else None
+                        vals = field_values(init, d, v) if i0 is not None and i0["k"] in ("InitListExpr", "DeclRefExpr") else [None] * len(rec[d]["fields"])
+                        const = (v.get("ty") or "").startswith("const ")
+                        for f, val in zip(rec[d]["fields"], vals):
+                            ch.append({"k": "VarDecl", "id": rw.fresh(), "did": fdid[(d, f["name"])], "name": "%s.%s" % (v.get("name"), f["name"]), "l": v.get("l"),
+                                       "ty": ("const " if const and "*" not in f["ty"] else "") + f["ty"], "ch": [val] if val is not None else []})
+                    else:
+                        ch.append(rewrite(v))
+                out = dict(n)
+                out["ch"] = ch
+                return out
+            out = dict(n)
+            for key in ("init", "condvar"):
+                if key in n and isinstance(n[key], dict):
+                    out[key] = rewrite(n[key])
+            if "ch" in n:
+                out["ch"] = [rewrite(c) for c in n["ch"]]
+            return out
+        body = rw.simplify(rewrite(body))
+        if any(y["k"] == "DeclRefExpr" and y["ref"]["id"] in cand for y in ir.walk(body)):
+            return fn
+        return _rebuilt(fn, body)
+    except (cfgbuild.Unsupported, normalize.Fail, KeyError, IndexError, TypeError, AttributeError):
+        return fn
+
+
+def _rebuilt(fn, body):
+    g = cfgbuild.build(body)
+    d2 = dict(fn.d)
+    d2["body"], d2["cfg"] = body, g
+    return ir.Fn(d2, fn.tu)
+
+
 # ------------------------------------------------------------------------------------------------ per-function context
 class Cx:
     """one instantiation of multisequence_partition / multisequence_selection"""
 
     def __init__(self, fn):
+        fn = scalarize_structs(inline_local_lambdas(fn))
         self.fn = fn
         if len(fn.params) < 5:
             raise ir.AnalysisBroken("%s: public signature (begin_seqs, end_seqs, rank, out, comp) expected" % fn.loc)
@@ -423,6 +905,73 @@ def elem_add(cx, z):
     return ref_of(ip[0]), ip, (k, fr[1]), linear.show((k, fr[1]))
 
 
+# ------------------------------------------------------------------------------------------------ bounds carried by a flag
+def flag_established(cx, x, need, effect):
+    """The bound `need >= 0` holds at x through a bool local F: on every path to x the state satisfies (F is false or the
+    bound holds) - established by the false edge of a test of F, by an edge whose condition is exactly the bound, or by
+    `F = false`; destroyed by any other write to F and by a write to an operand of the bound - and F has been tested true
+    since its last write.  This reads `if (F && !(bound)) F = false; ... if (F) use` as well as `F = bound; if (F) use`."""
+    fn, g, L = cx.fn, cx.g, cx.L
+    captured = {c_.get("id") for y in fn.nodes() if y["k"] == "LambdaExpr" for c_ in y.get("captures", []) if c_.get("byref")}
+    addr = {ref_of(kids(y)[0]) for y in fn.nodes() if y["k"] == "UnaryOperator" and y.get("op") == "&"}
+    for F, v in L.decls.items():
+        if (v.get("ty") or "").replace("const ", "") != "bool" or F in captured or F in addr:
+            continue
+        if any(not (w["k"] == "BinaryOperator" and w.get("op") == "=" and ref_of(kids(w)[0]) == F) for w in L.writes.get(F, [])):
+            continue
+        # a reference to F handed to a call could write it
+        if any("callee" in y and any(ref_of(a_) == F and a_ is not None and a_.get("lv") and a_["k"] != "ImplicitCastExpr" for a_ in kids(y)) for y in fn.nodes()):
+            continue
+
+        def flag_test(c, t):
+            """truth of F on this edge, or None"""
+            c0 = strip_casts(c)
+            while c0 is not None and (c0["k"] == "ParenExpr" or (c0["k"] == "UnaryOperator" and c0.get("op") == "!")):
+                if c0["k"] == "UnaryOperator":
+                    t = not t
+                c0 = strip_casts(kids(c0)[0])
+            return t if c0 is not None and ref_of(c0) == F else None
+
+        def written_value(n, F=F):
+            """the expression F is set to by element n (its declaration or an assignment); "?" for a declaration without
+            initialiser; None if n does not write F"""
+            if n["k"] == "DeclStmt":
+                for v_ in kids(n):
+                    if v_ is not None and v_["k"] == "VarDecl" and v_.get("did") == F:
+                        n = v_
+            if n["k"] == "VarDecl" and n.get("did") == F:
+                return strip_casts(kids(n)[0]) if kids(n) and kids(n)[0] is not None else "?"
+            if n["k"] == "BinaryOperator" and n.get("op") == "=" and ref_of(kids(n)[0]) == F:
+                return strip_casts(kids(n)[1])
+            return None
+
+        def q_effect(n):
+            r = written_value(n)
+            if r is None:
+                return effect(n)
+            return "gen" if r != "?" and r["k"] == "CXXBoolLiteralExpr" and const_int(r) == 0 else "kill"
+
+        def t_effect(n):
+            r = written_value(n)
+            if r is None:
+                return None
+            return "gen" if r != "?" and r["k"] == "CXXBoolLiteralExpr" and const_int(r) == 1 else "kill"
+        is_true = mustfact.MustFact(fn, g, lambda c, t: flag_test(c, t) is True, t_effect)
+        if is_true.before(x) is not True:
+            continue
+        q = mustfact.MustFact(fn, g, lambda c, t: flag_test(c, t) is False or _edge_is(L, c, t, need), q_effect)
+        if q.before(x) is True:
+            return cx.name(F)
+    return None
+
+
+def _edge_is(L, c, t, need):
+    """taking condition c with truth t establishes exactly need >= 0 (a single comparison, not a flag)"""
+    if ref_of(c) is not None:
+        return False
+    return any(linear.same(a_, need) for a_ in L.implied(c, t))
+
+
 # ------------------------------------------------------------------------------------------------ INDEX-GUARD & co.
 def check_index_guards(ck, cx, tag):
     """INDEX-GUARD: every begin_seqs[X].first[E] is reached only over branch edges that establish the needed bound
@@ -462,6 +1011,8 @@ def check_index_guards(ck, cx, tag):
         st = safe.before(x)
         if st is None:
             raise dtable.Undecidable("%s: %s has no position in the control-flow graph" % (fn.loc, dtable.describe(x)))
+        if st is not True and flag_established(cx, x, need, effect):
+            return False        # (flag is false or the bound holds) on every path, and the flag is tested true
         if st is not True:
             cx.unread_guard(x, "the bound of %s" % dtable.describe(x), names)
             # positive: a path to x on which every dominating branch was read and none establishes the bound (or the index is
@@ -515,7 +1066,10 @@ def check_index_guards(ck, cx, tag):
         sf = mustfact.MustFact(fn, g, lambda c, t: any(linear.implies(a_, need) for a_ in L.implied(c, t)), effect2)
         ex = mustfact.MustFact(fn, g, lambda c, t: any(linear.same(a_, need) for a_ in L.implied(c, t)), effect2)
         sig = "%s:%s" % (tag, dtable.describe(z)[:40])
-        if sf.before(z) is not True:
+        via = flag_established(cx, z, need, effect2) if sf.before(z) is not True else None
+        if via:
+            ck.ok("LEFT-BORDER-BOUND", "%s @%s" % (tag, fn.nloc(z)), "a zero left border moves by K exactly when K <= seqlen (carried by the flag %s)" % via)
+        elif sf.before(z) is not True:
             cx.unread_guard(z, "the bound of %s" % dtable.describe(z)[:40], names)
             ck.violation("LEFT-BORDER-BOUND", fn.qname, sig,
                          "the left border is moved by %s without a test that the sequence is that long (needs %s >= 0): the border leaves the sequence"
@@ -679,11 +1233,13 @@ def check_pointer_uses(cx, sc):
                                      % (fn.loc, name, y.get("l"), dtable.describe(p)[:60] if p is not None else "?"))
 
 
-def eval_scan(cx, sc, tag):
-    """The loop body is explored as a decision table over {V is null, comp(candidate, *V), comp(*V, candidate), other tests}.
-    -> text of the problem or None"""
+def scan_table(cx, sc):
+    """The loop body of a scan explored as a decision table over {V is null, comp(candidate, *V), comp(*V, candidate), other
+    tests} -> dict(leaves, atoms, others, rows, assigned, nodes_of); cached in the scan"""
+    if sc.get("tab") is not None:
+        return sc["tab"]
     fn = cx.fn
-    V, name, want_max = sc["V"], sc["var"]["name"], sc["want_max"]
+    V, name = sc["V"], sc["var"]["name"]
     check_pointer_uses(cx, sc)
     body = match.loop_parts(sc["loop"])[3]
     nodes_of = {}
@@ -722,13 +1278,23 @@ def eval_scan(cx, sc, tag):
         opaque_events(cx, lf, "scan for %s" % name, lambda w: writes_to(w)[0] == V)
     atoms = dtable.atoms_of(leaves)
     others = [a_ for a_ in atoms if a_.startswith("other:") or a_.startswith("flag:")]
+    rows = list(dtable.table(leaves, consistent=lambda v: not (v.get("lt:x<cur") and v.get("lt:cur<x")), atoms=atoms))
+    sc["tab"] = dict(leaves=leaves, atoms=atoms, others=others, rows=rows, assigned=assigned, nodes_of=nodes_of)
+    return sc["tab"]
+
+
+def eval_scan(cx, sc, tag):
+    """decided on the decision table of the scan body (scan_table) -> text of the problem or None"""
+    fn = cx.fn
+    V, name, want_max = sc["V"], sc["var"]["name"], sc["want_max"]
+    tab = scan_table(cx, sc)
+    leaves, atoms, others, rows, assigned, nodes_of = (tab[k_] for k_ in ("leaves", "atoms", "others", "rows", "assigned", "nodes_of"))
     LX, LC = "lt:x<cur", "lt:cur<x"
     problem = None
     # null dereference: a leaf that evaluated a comparison against *V while V is null
     for lf in leaves:
         if lf["val"].get("null") is True and any(k.startswith("lt:") for k in lf["val"]):
             problem = "compares a candidate with *%s while %s is still null" % (name, name)
-    rows = list(dtable.table(leaves, consistent=lambda v: not (v.get(LX) and v.get(LC)), atoms=atoms))
     for ov in itertools.product((False, True), repeat=len(others)):
         sel = [(v, lf) for v, lf in rows if all(v[o] == t for o, t in zip(others, ov))]
         considered = any(assigned(lf) for v, lf in sel)
@@ -777,6 +1343,119 @@ def eval_scan(cx, sc, tag):
     return problem
 
 
+def visit_order(cx, sc):
+    """+1 / -1: the sequence index of the scan's candidate grows / falls from one iteration of the scan loop to the next,
+    read from the loop: the index is linear in exactly one local that the loop steps once per iteration by a constant of
+    one sign (++i, i += c, i = i + c, --i, ...).  Anything else is `cannot decide`."""
+    fn, L = cx.fn, cx.L
+    name = sc["var"]["name"]
+    loop = sc["loop"]
+    init, cond, inc, body = match.loop_parts(loop)
+    inside = {y["id"] for y in ir.walk(loop)}
+    dirs = set()
+    for (X, E), z in zip(sc["elems"], sc["assigns"]):
+        f = L.form(X, z)
+        leaves = {}
+        for d_ in cx.leaf_refs(X, linear_only=True):
+            nm = cx.name(d_) if d_ in L.decls else next((p_.get("name") for p_ in fn.params if p_["did"] == d_), None)
+            leaves.setdefault(nm, set()).add(d_)
+        # every term is a plain variable; exactly one of them is written inside the loop, the others are constants there
+        moving = []
+        for term, k in (f[0].items() if f is not None else []):
+            ds = leaves.get(term)
+            if not ds or len(ds) != 1:
+                moving = None
+                break
+            d_ = next(iter(ds))
+            if any(w["id"] in inside for w in L.writes.get(d_, [])):
+                moving.append((d_, term, k))
+        if f is None or not moving or len(moving) != 1:
+            raise dtable.Undecidable("%s: the sequence index `%s` of the candidate for %s is not linear in one loop variable" % (fn.loc, dtable.describe(X), name))
+        d, term, k = moving[0]
+        for y in ir.walk(loop):
+            if y["k"] == "LambdaExpr" and any(c_.get("id") == d and c_.get("byref") for c_ in y.get("captures", [])):
+                raise dtable.Undecidable("%s: the loop variable of the scan for %s is captured by reference at line %s" % (fn.loc, name, y.get("l")))
+        ws = [w for w in L.writes.get(d, []) if w["id"] in inside and not (init is not None and any(y is w for y in ir.walk(init)))]
+        if len(ws) != 1:
+            raise dtable.Undecidable("%s: the loop variable %s of the scan for %s is written %d times inside the loop" % (fn.loc, cx.name(d), name, len(ws)))
+        w = ws[0]
+        step = None
+        u = match.unop(w, ("++", "--"))
+        if u and ref_of(u[1]) == d:
+            step = 1 if u[0] == "++" else -1
+        b = match.binop(w, ("+=", "-=", "=")) if w["k"] in ("BinaryOperator", "CompoundAssignOperator") else None
+        if b and ref_of(b[1]) == d:
+            if b[0] in ("+=", "-="):
+                c = const_int(b[2])
+                if c:
+                    step = (1 if c > 0 else -1) * (1 if b[0] == "+=" else -1)
+            else:
+                fr = L.form(b[2], w)
+                if fr is not None and len(fr[0]) == 1 and fr[0].get(term) == 1 and fr[1] != 0 and ref_of(match.strip_conv(b[2])) is None:
+                    step = 1 if fr[1] > 0 else -1
+        if step is None:
+            raise dtable.Undecidable("%s: the step `%s` of the scan loop for %s is not a constant increment / decrement" % (fn.loc, dtable.describe(w)[:40], name))
+        # executed exactly once per iteration: the increment of a for loop, or a statement of the loop body itself in a
+        # loop without `continue`
+        top = w
+        par = fn.parent(top)
+        while par is not None and (par["k"] in _CASTS or (par["k"] == "BinaryOperator" and par.get("op") == ",")):
+            top, par = par, fn.parent(par)
+        in_inc = inc is not None and any(y is w for y in ir.walk(inc)) and (top is inc or par is loop)
+        in_body = par is body and body is not None and body["k"] == "CompoundStmt" and \
+            not any(y["k"] in ("ContinueStmt", "GotoStmt") for y in ir.walk(body))
+        if not (in_inc or in_body):
+            raise dtable.Undecidable("%s: cannot tell that `%s` runs once per iteration of the scan loop for %s" % (fn.loc, dtable.describe(w)[:40], name))
+        dirs.add((1 if k > 0 else -1) * step)
+    if len(dirs) != 1:
+        raise dtable.Undecidable("%s: the candidates of the scan for %s are visited in no single order" % (fn.loc, name))
+    return dirs.pop()
+
+
+def tie_problem(cx, sc, S):
+    """The winner of this maximum scan is kept together with its sequence index S, and the pair is compared
+    lexicographically by (key, sequence index): it must be the lexicographic maximum of the edge, i.e. among equal keys the
+    highest sequence index.  Visiting the sequences in increasing order a tie must replace the winner, in decreasing order
+    it must not.  Decided on the tie rows of the scan's decision table -> text or None"""
+    fn = cx.fn
+    name, sname = sc["var"]["name"], cx.name(S)
+    tab = scan_table(cx, sc)
+    atoms, others, rows, assigned, nodes_of = (tab[k_] for k_ in ("atoms", "others", "rows", "assigned", "nodes_of"))
+    LX, LC = "lt:x<cur", "lt:cur<x"
+    if LX not in atoms and LC not in atoms:
+        raise dtable.Undecidable("%s: the scan for %s compares nothing: its behaviour on equal keys cannot be read" % (fn.loc, name))
+    order = visit_order(cx, sc)
+    want = order > 0            # increasing sequence index: the later of two equal keys wins
+    bad = None
+    n_tie = 0
+    for ov in itertools.product((False, True), repeat=len(others)):
+        sel = [(v, lf) for v, lf in rows if all(v[o] == t for o, t in zip(others, ov))]
+        if not any(assigned(lf) for v, lf in sel):
+            continue            # the candidate's guard is false: nothing is considered
+        for v, lf in sel:
+            if v.get("null") or v.get(LX) or v.get(LC):
+                continue
+            # neither strictly smaller nor strictly larger as far as the scan asks: the row that equal keys take
+            n_tie += 1
+            if assigned(lf) != want and bad is None:
+                bad = v
+    if not n_tie:
+        raise dtable.Undecidable("%s: no row of the scan for %s is taken by equal keys" % (fn.loc, name))
+    if bad is None:
+        return None
+    allowed = {cx.seqlen_did(), cx.seqs}
+    for X, E in sc["elems"]:
+        allowed |= cx.leaf_refs(X) | cx.leaf_refs(E)
+    unread = unread_relevant(cx, rows, atoms, others, nodes_of, allowed, assigned)
+    if unread:
+        raise dtable.Undecidable("%s: whether %s is replaced on equal keys depends on `%s`, which this rule cannot read"
+                                 % (fn.loc, name, unread[len("other:"):] if unread.startswith("other:") else unread))
+    return ("(%s, %s) is compared lexicographically by (key, sequence index), so among equal keys it must be the element of the highest sequence; "
+            "the candidates are visited in %s sequence index but on a tie (%s) the scan %s %s: it keeps the %s of the equal elements"
+            % (name, sname, "increasing" if order > 0 else "decreasing", dtable.fmt_val({k_: t for k_, t in bad.items() if k_.startswith("lt:")}),
+               "keeps" if want else "replaces", name, "lowest sequence"))
+
+
 def unread_relevant(cx, rows, atoms, others, nodes_of, allowed, outcome):
     """an uninterpreted atom on which the outcome depends and which is not a test over the allowed operands"""
     index = {tuple(v[a_] for a_ in atoms): lf for v, lf in rows}
@@ -807,6 +1486,7 @@ def check_edge_scans(ck, cx, tag):
         except ir.AnalysisBroken as e:      # one scan that cannot be read does not hide what another one shows
             unread.append(e)
             continue
+        sc["problem"] = problem
         if problem:
             name, want_max = sc["var"]["name"], sc["want_max"]
             ck.violation("EDGE-TIEBREAK", fn.qname, "%s:%s" % (tag, name), "the scan for %s (%s of the %s edge) %s"
@@ -920,11 +1600,34 @@ def find_skew(cx, pqs):
     return found[0]
 
 
+_HEAP_ALGOS = ("push_heap", "pop_heap", "make_heap", "sort_heap", "is_heap", "is_heap_until")
+
+
+def heap_vectors(cx):
+    """local containers that the standard heap algorithms are applied to as a whole (X.begin(), X.end()[, comp])
+    -> {declaration id: [calls]}; a heap algorithm over another kind of range is `cannot decide`"""
+    fn = cx.fn
+    out = {}
+    for z in fn.nodes():
+        if "callee" not in z or z.get("member_call") or z["callee"]["name"] not in _HEAP_ALGOS or not (z["callee"].get("qname") or "").startswith("std::"):
+            continue
+        conts = []
+        for a, nm in zip(kids(z)[:2], ("begin", "end")):
+            a0 = match.strip_conv(a)
+            if a0 is not None and a0.get("member_call") and a0["callee"]["name"] == nm and len(kids(a0)) == 1 and ref_of(kids(a0)[0]) in cx.L.decls:
+                conts.append(ref_of(kids(a0)[0]))
+        if len(conts) != 2 or conts[0] != conts[1]:
+            raise dtable.Undecidable("%s: std::%s at line %s runs over a range this rule cannot read" % (fn.loc, z["callee"]["name"], z.get("l")))
+        out.setdefault(conts[0], []).append(z)
+    return out
+
+
 def check_pq(ck, cx, tag):
     """priority queues: skew > 0 -> smallest right candidate first (lexicographic_rev as max-heap comparator), fed from the
     right border; skew < 0 -> largest left element first (lexicographic), fed from the left border - 1"""
     fn = cx.fn
-    pqs = [x for x in fn.nodes() if x["k"] == "VarDecl" and x.get("ty", "").startswith("std::priority_queue<")]
+    heaps = heap_vectors(cx)
+    pqs = [x for x in fn.nodes() if x["k"] == "VarDecl" and (x.get("ty", "").startswith("std::priority_queue<") or x.get("did") in heaps)]
     ck.require(len(pqs) == 2, "%s: two priority queues expected" % fn.loc)
     skew, orient = find_skew(cx, pqs)
     try:
@@ -937,9 +1640,15 @@ def check_pq(ck, cx, tag):
         par = fn.parent(pq)
         while par is not None and par["k"] != "CompoundStmt":
             par = fn.parent(par)
-        if "lexicographic_rev<" in pq["ty"]:
+        cmp_ty = pq["ty"]
+        if pq.get("did") in heaps:
+            tys = {(strip_casts(kids(c)[2]).get("ty") or "").replace("const ", "") if len(kids(c)) == 3 else None for c in heaps[pq["did"]]}
+            if len(tys) != 1 or None in tys:
+                raise dtable.Undecidable("%s: the heap algorithms on %s (line %s) do not all receive one comparator" % (fn.loc, pq.get("name"), pq.get("l")))
+            cmp_ty = tys.pop()
+        if "lexicographic_rev<" in cmp_ty:
             rev = True
-        elif "lexicographic<" in pq["ty"]:
+        elif "lexicographic<" in cmp_ty:
             rev = False
         else:
             raise dtable.Undecidable("%s: comparator type of the priority queue at line %s is not one of the two lexicographic functors" % (fn.loc, pq.get("l")))
@@ -968,8 +1677,33 @@ def check_pq(ck, cx, tag):
             return report(show_src(src))
         return False
 
+    def stmt_and_siblings(n):
+        """(statement that holds n, the statement before it, the statement after it) inside its compound statement"""
+        st, par_ = n, fn.parent(n)
+        while par_ is not None and par_["k"] != "CompoundStmt":
+            if par_["k"] in ("IfStmt", "ForStmt", "WhileStmt", "DoStmt", "SwitchStmt"):
+                return st, None, None       # a single statement under a branch: it has no neighbours
+            st, par_ = par_, fn.parent(par_)
+        if par_ is None:
+            return st, None, None
+        sibs = [s_ for s_ in kids(par_) if s_ is not None]
+        i = [j for j, s_ in enumerate(sibs) if s_ is st][0]
+        return st, (sibs[i - 1] if i > 0 else None), (sibs[i + 1] if i + 1 < len(sibs) else None)
+
+    def is_stmt_call(st, names, did, member):
+        """statement st is exactly  X.name(..)  (member) /  std::name(X.begin(), X.end(), ..)  on the container did"""
+        e = st
+        while e is not None and e["k"] in _CASTS and kids(e):
+            e = kids(e)[0]
+        if e is None or "callee" not in e or e["callee"]["name"] not in names:
+            return False
+        if member:
+            return bool(e.get("member_call")) and ref_of(kids(e)[0]) == did
+        return not e.get("member_call") and any(c is e for c in heaps.get(did, []))
+
     def pq_sources(pq, par):
         feeds = []
+        is_heap = pq.get("did") in heaps
         for y in ir.walk(par):
             if y["k"] != "DeclRefExpr" or y["ref"]["id"] != pq["did"]:
                 continue
@@ -980,6 +1714,36 @@ def check_pq(ck, cx, tag):
                 raise dtable.Undecidable("%s: the priority queue is handed to %s (line %s), which this rule cannot read"
                                          % (fn.loc, dtable.describe(p)[:50] if p is not None else "?", y.get("l")))
             nm = p["callee"]["name"]
+            if is_heap:
+                # a vector kept in heap order is a priority queue exactly when it is used the way std::priority_queue is
+                # specified: push = push_back + push_heap, pop = pop_heap + pop_back, top = front
+                st, prev, nxt = stmt_and_siblings(p)
+                what = None
+                if nm in ("push_back", "emplace_back"):
+                    feeds.append(p)
+                    if not is_stmt_call(st, (nm,), pq["did"], True) or nxt is None or not is_stmt_call(nxt, ("push_heap",), pq["did"], False):
+                        what = "%s is not directly followed by std::push_heap over the whole container" % nm
+                elif nm == "pop_back":
+                    if not is_stmt_call(st, (nm,), pq["did"], True) or prev is None or not is_stmt_call(prev, ("pop_heap",), pq["did"], False):
+                        what = "pop_back is not directly preceded by std::pop_heap over the whole container"
+                elif nm in ("begin", "end"):
+                    q = fn.parent(p)
+                    while q is not None and q["k"] in _CASTS + ("CXXConstructExpr",):
+                        q = fn.parent(q)
+                    if q is None or not any(c is q for c in heaps[pq["did"]]):
+                        what = "an iterator of the container is used outside the heap algorithms"
+                    elif q["callee"]["name"] == "push_heap" and (prev is None or not is_stmt_call(prev, ("push_back", "emplace_back"), pq["did"], True)):
+                        what = "std::push_heap does not directly follow a push_back"
+                    elif q["callee"]["name"] == "pop_heap" and (nxt is None or not is_stmt_call(nxt, ("pop_back",), pq["did"], True)):
+                        what = "std::pop_heap is not directly followed by pop_back"
+                    elif q["callee"]["name"] not in ("push_heap", "pop_heap"):
+                        what = "std::%s is not one of the two steps of a priority queue" % q["callee"]["name"]
+                elif nm not in ("front", "empty", "size", "reserve"):
+                    what = "member %s is not one this rule reads" % nm
+                if what:
+                    raise dtable.Undecidable("%s: the container %s is kept in heap order by hand, but not in the way of std::priority_queue: %s (line %s)"
+                                             % (fn.loc, pq.get("name"), what, p.get("l")))
+                continue
             if nm in ("push", "emplace"):
                 feeds.append(p)
             elif nm not in ("top", "pop", "empty", "size"):
@@ -1226,6 +1990,16 @@ def check_middle(ck, cx, tag):
                      "without regard to their sequence index (unstable partition) - %s" % stale, fn.nloc(c))
         return
     ck.ok("MIDDLE-LEXI", tag, "an element goes left iff (element, sequence) < (left maximum, its sequence) lexicographically")
+    # (left maximum, its sequence) must then be the lexicographic maximum of the left edge
+    if sc.get("problem"):
+        return                  # the scan is already reported by EDGE-TIEBREAK
+    tie = tie_problem(cx, sc, S)
+    if tie:
+        ck.violation("EDGE-TIEBREAK", fn.qname, "%s:%s:ties" % (tag, vname), "the scan for %s (maximum of the left edge, kept with its sequence): %s" % (vname, tie),
+                     fn.nloc(sc["assigns"][-1]))
+    else:
+        ck.ok("EDGE-TIEBREAK", "%s %s ties" % (tag, vname), "kept with its sequence index %s and compared lexicographically: among equal keys the scan keeps the "
+              "highest sequence index (visiting order read from the loop, tie rows of the scan's decision table)" % cx.name(S))
 
 
 def pairing_problem(cx, sc, S):
@@ -1376,8 +2150,17 @@ def check_comp_threaded(ck, cx, tag):
         argtys = [(a.get("ty") or "") for a in kids(z)]
         if z["callee"]["name"] in ("min", "max") and all(("long" in t or "int" in t) and "iterator" not in t for t in argtys):
             continue
+        def closure_of(x):
+            """the lambda expression a never-written closure local stands for"""
+            v = cx.L.decls.get(x["ref"]["id"]) if x["k"] == "DeclRefExpr" else None
+            e = kids(v)[0] if v is not None and kids(v) and x["ref"]["id"] not in cx.L.writes else None
+            while e is not None and e["k"] in _CASTS + ("CXXConstructExpr",) and len(kids(e)) == 1:
+                e = kids(e)[0]
+            return e if e is not None and e["k"] == "LambdaExpr" else None
         uses = any((x["k"] == "DeclRefExpr" and x["ref"]["id"] in src) or
-                   (x["k"] == "LambdaExpr" and any(c_.get("id") in src for c_ in x.get("captures", []))) for a in kids(z) for x in ir.walk(a))
+                   (x["k"] == "LambdaExpr" and any(c_.get("id") in src for c_ in x.get("captures", []))) or
+                   (closure_of(x) is not None and any(c_.get("id") in src for c_ in closure_of(x).get("captures", [])))
+                   for a in kids(z) for x in ir.walk(a))
         if not uses and len(kids(z)) > _PLAIN_ARITY.get(z["callee"]["name"], 99):
             raise dtable.Undecidable("%s: std::%s at line %s receives an ordering that this rule cannot trace to the caller's comparator"
                                      % (fn.loc, z["callee"]["name"], z.get("l")))
